@@ -647,10 +647,12 @@ EB_API EbErrorType svt_av1_dec_deinit(EbComponentType *svt_dec_component) {
 
     if (!dec_handle_ptr)
         return EB_ErrorNone;
-    if (dec_handle_ptr->dec_config.threads > 1)
-        dec_sync_all_threads(dec_handle_ptr);
-    if (!svt_dec_memory_map)
+    // nothing registered, or already released by an earlier call on this handle
+    if (!svt_dec_memory_map || !dec_handle_ptr->memory_map_init_address)
         return EB_ErrorNone;
+    // the worker threads and their semaphores are created when the first frame header arrives
+    if (dec_handle_ptr->dec_config.threads > 1 && dec_handle_ptr->decode_thread_handle_array)
+        dec_sync_all_threads(dec_handle_ptr);
 
     // Loop through the ptr table and free all malloc'd pointers per channel
     // the list ends in the (empty) entry allocated with the handle; nothing else may have been registered yet
@@ -675,6 +677,7 @@ EB_API EbErrorType svt_av1_dec_deinit(EbComponentType *svt_dec_component) {
         free(tmp_memory_entry);
     }
     free(dec_handle_ptr->memory_map_init_address);
+    dec_handle_ptr->memory_map_init_address = NULL;
     return return_error;
 }
 
